@@ -262,6 +262,10 @@ class ContractMixin:
                     if qn.endswith(suffix) and isinstance(d.returns, Ty):
                         ty = d.returns
             return fresh(ty, "nocall")
+        if name in ("log_count", "log_arg", "log_result", "log_result_field", "log_raised"):
+            sfx_ = z3.simplify(args[0].t).as_string()
+            if any(q_.endswith(sfx_) for q_ in st.log_untracked):
+                raise Unsupported("the ghost call log of %s is not tracked through loops (a call of it occurs in a loop body)" % sfx_, node)
         if name == "log_raised":
             suffix = z3.simplify(args[0].t).as_string()
             return mk_int(len([1 for (q, env) in st.log if q.endswith(suffix) and "__raised__" in env]))
@@ -569,7 +573,7 @@ class ContractMixin:
         qual = st.env.get("__qual__")
         ordinal = self.loop_ordinals.get(id(node))
         ci = self.cur_ci
-        if ci is None or qual != self.cur_qual or ordinal is None or ordinal not in ci.invariants:
+        if ci is None or qual != (self.cur_qual or "").split("@")[0] or ordinal is None or ordinal not in ci.invariants:
             if kind == "for" and isinstance(iterable, Val) and isinstance(iterable.ty, (TSeq, TSet, TLSet)) and ci is not None:
                 wl, wh, _t, _r = self.discover_writes(node, st, kind, iterable, items_of)
                 if not wl and not wh and not any(isinstance(n, (ast.Return, ast.Raise, ast.Break)) for n in ast.walk(node)):
@@ -595,6 +599,10 @@ class ContractMixin:
                 ghosts["_iter"] = iterable
             else:
                 raise Unsupported("iteration over %r" % (iterable,), node)
+
+        for _lab, _body in invs:
+            if _mentions_log(_body):
+                raise Unsupported("a loop invariant cannot speak about the ghost call log (the log is per path, not per iteration)", node)
 
         def inv_terms(s, gh):
             frame_extra = dict(s.env)
@@ -745,7 +753,12 @@ class ContractMixin:
                 for s1, o in starts:
                     if o[0] != "normal":
                         continue
+                    n_log0 = len(s1.log)
                     for s2, out in self.exec_block(node.body, s1):
+                        # calls made inside a loop body are not in the ghost call log of the state after the loop:
+                        # the log of those callees is marked untracked (a clause over it is a shape error, never a silent pass)
+                        for (q_, _e) in s2.log[n_log0:]:
+                            st.log_untracked.add(q_)
                         wl |= s2.written_locals
                         wh |= s2.written
                         for k_, rs_ in s2.written_at.items():
